@@ -2,3 +2,26 @@
 //! Everything here is inert unless a harness switches it on.
 
 pub mod clock;
+pub mod recorder;
+
+/// Crate-private statistic types (leap array, sliding window, resource node, default slots).
+pub use crate::core::stat::verif_exports as stat;
+/// Setters for the collected system readings.
+pub use crate::core::system_metric::verif_setters as system;
+
+use std::sync::Arc;
+
+/// `(sample_count_total, interval_ms_total, sample_count, interval_ms)` a node was built with.
+pub fn node_geometry(node: &stat::ResourceNode) -> (u32, u32, u32, u32) {
+    (
+        node.arr.sample_count(),
+        node.arr.interval_ms(),
+        node.metric.sample_count(),
+        node.metric.interval_ms(),
+    )
+}
+
+/// The underlying bucket array of a node.
+pub fn node_array(node: &stat::ResourceNode) -> Arc<stat::BucketLeapArray> {
+    node.arr.clone()
+}
